@@ -1282,9 +1282,11 @@ func genPkt(t *rapid.T, allowHuge bool) Pkt {
 		if rapid.IntRange(0, 9).Draw(t, "hasParams") < 6 {
 			p.Params = genBlobs(t, allowHuge)
 		}
-		// a parameters-digest component in the middle of the name of an Interest that
-		// carries parameters is excluded: the packet format allows at most one
-		p.Name = genName(t, 5, allowHuge, p.Params != nil)
+		// Interest names hold no parameters-digest component of their own, except a
+		// trailing one (below): the packet format allows that component only together
+		// with ApplicationParameters, at most once, and the API computes it itself
+		// ("/test/params-sha256=.../ndn is not supported yet", spec_test.go)
+		p.Name = genName(t, 5, allowHuge, true)
 		if rapid.IntRange(0, 9).Draw(t, "trailingDigest") == 0 {
 			// re-encoding a received Interest: the name already ends in a digest component
 			p.Name = append(p.Name, Comp{T: tw.TParamsDigest, V: Blob{N: 32, S: rapid.Byte().Draw(t, "oldDigest")}})
@@ -1449,6 +1451,16 @@ func padPacket(t *rapid.T, p Pkt) Pkt {
 		tg = packetTargets
 	}
 	target := rapid.SampledFrom(tg).Draw(t, "packetTarget")
+	if rapid.Bool().Draw(t, "padWithEcdsa") {
+		// ECDSA signatures are 70..72 bytes against an estimate of 72: the only shipped
+		// signer whose signature can be shorter than estimated
+		kn := Name{{T: 8, V: Blob{X: "6b"}}}
+		p.Sig = Signer{Kind: "ecdsa", KeyName: &kn, ForInt: p.Kind == "I"}
+		if p.Kind == "I" && p.Params == nil {
+			p.Params = &[]Blob{{}}
+			p.Name = stripMidDigest(p.Name)
+		}
+	}
 	var bs *[]Blob
 	if p.Kind == "I" {
 		bs = p.Params
